@@ -33,8 +33,7 @@ Definition V_counts (c : Z * Z * Z) : V := VL [VZ (fst (fst c)); VZ (snd (fst c)
 Fixpoint maxcs (t : tree) : list (option Z) :=
   match t with
   | Leaf _ => []
-  | Node es => last (map (fun ct => Some (fst ct)) es) None
-               :: flat_map (fun ct => maxcs (snd ct)) es
+  | Node es => max_coord es :: flat_map (fun ct => maxcs (snd ct)) es
   end.
 
 (* the other read-backs a user can make of the output and of the operands after the kernel —
@@ -59,8 +58,16 @@ Definition c15_obs (zoff zon : tree) (cn : Z * Z * Z) (its : list (option Z)) : 
 Definition after_prior (c : c15_case) : mstate :=
   fold_left (fun m s => snd (run_session m s)) (k_prior c) m_pristine.
 
+Definition is_fail (e : mev) : bool := match e with EFail => true | _ => false end.
+
+(* the kernel of the session runs into the populate iterator's assertion (collection is on) *)
+Definition session_fails (s : session) : bool :=
+  existsb is_fail (snd (run true 0 (s_wt s) (s_da s) (s_db s) (s_lv s) (z_init (s_lv s)) (s_a s) (s_b s))).
+
+(* an AssertionError out of the observed session is the whole observation: Verr 3 *)
 Definition obs_from (m : mstate) (s : session) : V :=
-  let zoff := fst (run false 0 (s_da s) (s_db s) (s_lv s) (z_init (s_lv s)) (s_a s) (s_b s)) in
+  if session_fails s then Verr 3 else
+  let zoff := fst (run false 0 (s_wt s) (s_da s) (s_db s) (s_lv s) (z_init (s_lv s)) (s_a s) (s_b s)) in
   let '(zon, m1, m2) := run_session m s in
   c15_obs zoff zon (counts_of m1) (iters_of s m2).
 
@@ -169,16 +176,14 @@ Definition kernel_wf (lv : list level) (a b : tree) : bool :=
   && depth_ok (cntb la lv) a && depth_ok (cntb lb lv) b
   && sorted_t a && sorted_t b.
 
-(* trace type 4 = "populate_write_0": its rows carry positions in a staging area behind the
-   output fiber's shape, so the populate iterator asserts that the output has one
-   (iterators.py:1149-1152 after fix S41; before it the assertion fired for every shapeless
-   output whenever collection was on) *)
-Definition write_trace_ok (s : session) : bool :=
-  s_zshape s || forallb (fun k => negb (Z.eqb (snd k) 4)) (s_traces s).
-
 Definition c15_wf (c : c15_case) : bool :=
-  kernel_wf (s_lv (k_final c)) (s_a (k_final c)) (s_b (k_final c)) && s_end (k_final c)
-  && write_trace_ok (k_final c).
+  kernel_wf (s_lv (k_final c)) (s_a (k_final c)) (s_b (k_final c)) && s_end (k_final c).
+
+(* known finding F-C15-write-trace-insert-no-shape: with (rank, "populate_write_0") traced on an
+   output without a declared shape, a populate that inserts a new element before the fiber's last
+   coordinate raises AssertionError — with collection off the same kernel completes.  Exactly
+   the cases in which the model's run emits EFail. *)
+Definition c15_region (c : c15_case) : Z := if session_fails (k_final c) then 1 else 0.
 
 Definition spec_iters (s : session) : list (option Z) :=
   map (fun i => if traced_iter s (Z.of_nat i)
@@ -206,4 +211,4 @@ Definition c15_holds (c : c15_case) (o : V) : bool :=
   end.
 
 Definition c15_checker : checker c15_case :=
-  {| model := c15_model; holds := c15_holds; region := fun _ => 0 |}.
+  {| model := c15_model; holds := c15_holds; region := c15_region |}.
